@@ -29,8 +29,11 @@ package main
 //               guard.  Refused: an indexing expression on the right of && / || (short-circuit), in a
 //               loop condition, a switch case, a declaration, a function literal; calls of partial
 //               functions other than `return self(…)`.  Which panic occurs first is not distinguished;
-//               running out of memory in make is not modelled.  Slices are values: the subset has no
-//               aliasing (a slice variable is only changed through its own name or receiver field).
+//               running out of memory in make is not modelled.  Slices are values; so that Go's reference
+//               semantics cannot be observed, a function is refused (aliasCheck) when a slice assigned
+//               through an index is a parameter, does not come from `make` (local) / is not a receiver
+//               field, is copied (`u := s`) or passed to a function other than len, when a slice stored
+//               through an index is not a fresh `make`, or when a row `t[i]` is copied into a variable.
 //   structs     a struct of the package all of whose fields are words/ints/bools/slices is the tuple of
 //               its fields in declaration order; `&T{f: e, …}` / `T{…}` is that tuple with zero values for
 //               omitted fields (a pointer to a fresh value is the value); a receiver field of type
@@ -995,6 +998,9 @@ func (t *tr) stmts(list []ast.Stmt, k []ast.Stmt) string {
 			} else {
 				return t.fail("assignment target %s", src(v.Lhs[i]))
 			}
+			if _, isIdx := v.Rhs[i].(*ast.IndexExpr); isIdx && isSliceTy(t.typeOf(v.Rhs[i])) {
+				return t.fail("a row of a slice of slices is copied (aliasing)")
+			}
 			rhs := t.expr(v.Rhs[i])
 			if v.Tok != token.ASSIGN && v.Tok != token.DEFINE {
 				// op=
@@ -1004,6 +1010,9 @@ func (t *tr) stmts(list []ast.Stmt, k []ast.Stmt) string {
 				rhs = t.expr(&ast.BinaryExpr{X: v.Lhs[i], Op: op, Y: v.Rhs[i]})
 			}
 			if idxs != nil {
+				if c, isCall := v.Rhs[i].(*ast.CallExpr); isSliceTy(t.typeOf(v.Lhs[i])) && !(isCall && src(c.Fun) == "make") {
+					return t.fail("a slice stored through an index must come from make (aliasing)")
+				}
 				rhs = t.sliceSet(name, t.types[name], idxs, rhs)
 			}
 			if v.Tok == token.DEFINE {
@@ -1874,6 +1883,17 @@ func translateFnMode(f *fn, known map[string]string, retTypes map[string]string,
 		t.fnResults = t.assignedSorted()
 		t.retTy = strings.Join(rts, " × ")
 	}
+	{
+		ps := map[string]bool{}
+		for _, fld := range f.decl.Type.Params.List {
+			for _, n := range fld.Names {
+				ps[n.Name] = true
+			}
+		}
+		if msg := aliasCheck(t.recvName, ps, f.decl.Body.List); msg != "" {
+			t.fail("%s", msg)
+		}
+	}
 	voidRetTy := t.retTy
 	if partial {
 		t.retTy = "Option (" + t.retTy + ")"
@@ -2121,6 +2141,17 @@ func translateSuffixMode(f *fn, spec suffixSpec, known map[string]string, retTyp
 		return b.String(), false
 	}
 	stmts := f.decl.Body.List[start:]
+	{
+		ps := map[string]bool{}
+		for _, fld := range f.decl.Type.Params.List {
+			for _, n := range fld.Names {
+				ps[n.Name] = true
+			}
+		}
+		if msg := aliasCheck(t.recvName, ps, stmts); msg != "" {
+			t.fail("%s", msg)
+		}
+	}
 	for _, s := range stmts {
 		ast.Inspect(s, func(n ast.Node) bool {
 			if a, ok := n.(*ast.AssignStmt); ok {
